@@ -32,3 +32,8 @@ Proof. exact fit_refines. Qed.
 Theorem C07_stored_is_recomputed : forall D nf s, sub_exact s -> cnt_ok s -> data_ok D nf s ->
   sls s = cl_sum D nf (sids s) /\ sn s = cl_n (sids s) /\ scent s = cl_cent D nf (sids s).
 Proof. exact cl_facts. Qed.
+
+(* non-vacuity: the hypotheses of C07_fit_refines hold for a first fit of five rows at branching
+   factor 2 (the leaf splits) and the theorem's conclusion is obtained for it *)
+From BB Require Proofs.Compose.
+Example C07_nonvacuous_instance := Compose.C07Demo.C07_nonvacuous.
